@@ -1,7 +1,7 @@
 """C06 — Map read/write round-trips every field and is byte-stable."""
 from ..extract import AnalysisBroken
 from ..facts import fmt_term, CALLS
-from ..flow import Engine, Summaries
+from ..flow import Engine, Summaries, fmt_fact
 from ..report import ok, bad
 from ..rules_layout import constant_by_role, r_layout
 from ..rules_narrow import r_narrow
@@ -24,6 +24,29 @@ WITNESSES = [
     ("map-getters-on-const", "void f(const Map& m) { (void)m.GetCellType(0, 0); (void)m.GetLavaPossible(0, 0); (void)m.GetVersionTag(); (void)m.TileCount(); }", "compiles"),
     ("map-setter-needs-mutable", "void f(const Map& m) { m.SetLavaPossible(true, 0, 0); }", "rejected"),
 ]
+
+
+def writer_refuses_only_capacity(F, S):
+    """R-GUARD: whatever the map writer (on a stream) refuses, it refuses because a count does not fit its 32-bit field: every
+    refusal every returning path has passed is `count <= 0xFFFFFFFF`. Any other refusal turns away maps the reader returns -
+    a map that was read could then not be written back."""
+    fn = F.fn(M + "::Write", nparams=1, pred=lambda f: "Writer &)" in f.key)
+    eng = Engine(F, S)
+    ex = eng.analyze(fn, frozenset()) or frozenset()
+    conds = []
+    for f in ex:
+        if f[0] == "ev" and f[1] == "passed":
+            conds.append(f[2])
+        elif f[0] == "ev" and f[1] == "each" and f[2][0] == "ev" and f[2][1] == "passed":
+            conds.append(f[2][2])
+    other = sorted({fmt_fact(c) for c in conds if not ((c[0] == "<=" and c[2] == ("const", 0xFFFFFFFF)) or (c[0] == "<" and c[2] == ("const", 1 << 32)))})
+    inst = M + "::Write#refuses-only-capacity"
+    req = "the map writer refuses nothing but counts that do not fit their 32-bit size fields"
+    if not conds:
+        raise AnalysisBroken("Map::Write: no capacity refusal observed (shape not recognised)")
+    if not other:
+        return [ok("R-GUARD", inst, fn.loc(fn.body), fn.qn, req, "%d refusals on the returning paths, all of the form count <= 0xFFFFFFFF" % len(conds))]
+    return [bad("R-GUARD", inst, fn.loc(fn.body), fn.qn, req, "also refuses unless %s: a map the reader accepts can be refused by the writer" % "; ".join(other))]
 
 
 def version_and_trim(F, S):
@@ -282,6 +305,7 @@ def check(F, run, tier):
     hi = max(e["value"] for e in en["enumerators"])
     run.add(r_guard_exact(F, Engine(F, S), sc, [(P(sc, 0), ("const", hi))]))
     run.add(version_and_trim(F, S))
+    run.add(writer_refuses_only_capacity(F, S))
     from . import c07
     run.add([o for o in c07.tileset_sources(F, S) if "marker" in o.instance])
     run.add(run_witnesses(F, "C06", WITNESSES))
